@@ -33,7 +33,9 @@ func (c *Tag) WriteHTMLTo(w io.Writer) (int64, error) {
 	for _, name := range names {
 		value := c.attributes[name]
 		if value != "" {
-			attributes += fmt.Sprintf(`%s="%s" `, name, value)
+			// The value often comes from the file (like a surname in a link).
+			attributes += fmt.Sprintf(`%s="%s" `, name,
+				escapeAttribute(value))
 		}
 	}
 
@@ -42,4 +44,18 @@ func (c *Tag) WriteHTMLTo(w io.Writer) (int64, error) {
 		c.body,
 		NewHTML(fmt.Sprintf(`</%s>`, c.tag)),
 	).WriteHTMLTo(w)
+}
+
+// attributeEscaper escapes everything that could end a double quoted attribute
+// value or be mistaken for markup. Single quotes are safe there and are used by
+// the onclick handlers.
+var attributeEscaper = strings.NewReplacer(
+	`&`, "&amp;",
+	`<`, "&lt;",
+	`>`, "&gt;",
+	`"`, "&#34;",
+)
+
+func escapeAttribute(value string) string {
+	return attributeEscaper.Replace(value)
 }
